@@ -68,8 +68,8 @@ def write_tape(case):
     meta = {"runs": set(), "gaps": set()}
     out = b""
     for f in case["files"]:
-        name = f["name"].encode("ascii").ljust(8)[:8]
-        ext = f["ext"].encode("ascii").ljust(3)[:3]
+        name = f["name"].encode("latin1").ljust(8)[:8]
+        ext = f["ext"].encode("latin1").ljust(3)[:3]
         lead = name + ext + bytes([f["kind"], f["mode"] >> 8, f["mode"] & 255])
         out += block(rng, 0, lead, meta)
         for c in f["chunks"]:
